@@ -149,6 +149,8 @@ def inject(p, cls, r):
         scomps = list(comps) if kind == "age" else ops[have[0]]["comps"]
         ops.append({"op": "strat", "kind": kind, "name": kind + "2", "strata": ["0", "7"] if kind == "age" else ["u", "w"],
                     "comps": scomps, "fadj": [], "iadj": {}})
+        if kind == "age" and r.random() < 0.5:
+            ops[-1]["mix"] = [["1/2", "1/4"], ["1/4", "1"]]      # (a full stratification may carry a matrix: still a second age stratification)
         return q, len(ops)
     if cls == "duplicate_stratification" and sidx:
         if any(o["op"] in ("req", "rebalance") for o in ops):
